@@ -71,7 +71,7 @@ func (e *Engine) verifyFunc(fn *ssa.Function, ct *Contract, prop string) *Run {
 				}
 			}
 		}
-		oe := &Env{r: r, st: o.st, old: r.entry, vars: vars, ctx: r.name + "/ensures"}
+		oe := &Env{r: r, st: o.st, old: r.entry, vars: vars, fr: o.fr, ctx: r.name + "/ensures"}
 		for _, cl := range ct.Ensures {
 			g := r.evalBool(oe, cl.Expr)
 			r.emit(o.st, "ensures:"+cl.Label, "ensures", ct.clauseProps(cl), g)
